@@ -12,7 +12,7 @@ c. an independent syntactic characterisation of failure: `freezeExpr` fails iff 
 d. semantic preservation against Impl/CoreEval for the binder-free, call-free fragment.
 
 All the mutual statements are proved with the functional induction principle `freezeExpr.mutual_induct`
-(one case per path through the six mutually recursive functions).
+(one case per path through the seven mutually recursive functions).
 -/
 import NoulithModel.Impl.CoreEval
 
@@ -25,6 +25,7 @@ variable {V V' : Type}
 
 theorem bound_mono_all (look : String → Option V) :
     (∀ s e, ∀ e' s', freezeExpr look s e = .ok (e', s') → ∀ x ∈ s.bound, x ∈ s'.bound) ∧
+    (∀ s arms, ∀ arms' s', freezeArms look s arms = .ok (arms', s') → ∀ x ∈ s.bound, x ∈ s'.bound) ∧
     (∀ s ps, ∀ ps' s', freezeParams look s ps = .ok (ps', s') → ∀ x ∈ s.bound, x ∈ s'.bound) ∧
     (∀ s o, ∀ o' s', freezeOpt look s o = .ok (o', s') → ∀ x ∈ s.bound, x ∈ s'.bound) ∧
     (∀ s b, ∀ b' s', freezeBody look s b = .ok (b', s') → ∀ x ∈ s.bound, x ∈ s'.bound) ∧
@@ -32,15 +33,16 @@ theorem bound_mono_all (look : String → Option V) :
     (∀ s es, ∀ es' s', freezeList look s es = .ok (es', s') → ∀ x ∈ s.bound, x ∈ s'.bound) := by
   apply freezeExpr.mutual_induct look
     (motive_1 := fun s e => ∀ e' s', freezeExpr look s e = .ok (e', s') → ∀ x ∈ s.bound, x ∈ s'.bound)
-    (motive_2 := fun s ps => ∀ ps' s', freezeParams look s ps = .ok (ps', s') → ∀ x ∈ s.bound, x ∈ s'.bound)
-    (motive_3 := fun s o => ∀ o' s', freezeOpt look s o = .ok (o', s') → ∀ x ∈ s.bound, x ∈ s'.bound)
-    (motive_4 := fun s b => ∀ b' s', freezeBody look s b = .ok (b', s') → ∀ x ∈ s.bound, x ∈ s'.bound)
-    (motive_5 := fun s its => ∀ its' s', freezeIts look s its = .ok (its', s') → ∀ x ∈ s.bound, x ∈ s'.bound)
-    (motive_6 := fun s es => ∀ es' s', freezeList look s es = .ok (es', s') → ∀ x ∈ s.bound, x ∈ s'.bound)
+    (motive_2 := fun s arms => ∀ arms' s', freezeArms look s arms = .ok (arms', s') → ∀ x ∈ s.bound, x ∈ s'.bound)
+    (motive_3 := fun s ps => ∀ ps' s', freezeParams look s ps = .ok (ps', s') → ∀ x ∈ s.bound, x ∈ s'.bound)
+    (motive_4 := fun s o => ∀ o' s', freezeOpt look s o = .ok (o', s') → ∀ x ∈ s.bound, x ∈ s'.bound)
+    (motive_5 := fun s b => ∀ b' s', freezeBody look s b = .ok (b', s') → ∀ x ∈ s.bound, x ∈ s'.bound)
+    (motive_6 := fun s its => ∀ its' s', freezeIts look s its = .ok (its', s') → ∀ x ∈ s.bound, x ∈ s'.bound)
+    (motive_7 := fun s es => ∀ es' s', freezeList look s es = .ok (es', s') → ∀ x ∈ s.bound, x ∈ s'.bound)
   all_goals
     intros
     rename_i h x hx
-    simp only [freezeExpr, freezeList, freezeOpt, freezeIts, freezeParams, freezeBody, *] at h
+    simp only [freezeExpr, freezeArms, freezeList, freezeOpt, freezeIts, freezeParams, freezeBody, *] at h
     grind
 
 /-- names bound before a freeze are still bound after it (for what follows in the same scope) -/
@@ -50,10 +52,11 @@ theorem freeze_bound_monotone (look : String → Option V) (s s' : FState V) (e 
 
 theorem freezeList_bound_monotone (look : String → Option V) (s s' : FState V) (es es' : List Expr)
     (h : freezeList look s es = .ok (es', s')) : ∀ x, x ∈ s.bound → x ∈ s'.bound :=
-  (bound_mono_all look).2.2.2.2.2 s es es' s' h
+  (bound_mono_all look).2.2.2.2.2.2 s es es' s' h
 
 theorem tab_prefix_all (look : String → Option V) :
     (∀ s e, ∀ e' s', freezeExpr look s e = .ok (e', s') → s.tab <+: s'.tab) ∧
+    (∀ s arms, ∀ arms' s', freezeArms look s arms = .ok (arms', s') → s.tab <+: s'.tab) ∧
     (∀ s ps, ∀ ps' s', freezeParams look s ps = .ok (ps', s') → s.tab <+: s'.tab) ∧
     (∀ s o, ∀ o' s', freezeOpt look s o = .ok (o', s') → s.tab <+: s'.tab) ∧
     (∀ s b, ∀ b' s', freezeBody look s b = .ok (b', s') → s.tab <+: s'.tab) ∧
@@ -61,15 +64,16 @@ theorem tab_prefix_all (look : String → Option V) :
     (∀ s es, ∀ es' s', freezeList look s es = .ok (es', s') → s.tab <+: s'.tab) := by
   apply freezeExpr.mutual_induct look
     (motive_1 := fun s e => ∀ e' s', freezeExpr look s e = .ok (e', s') → s.tab <+: s'.tab)
-    (motive_2 := fun s ps => ∀ ps' s', freezeParams look s ps = .ok (ps', s') → s.tab <+: s'.tab)
-    (motive_3 := fun s o => ∀ o' s', freezeOpt look s o = .ok (o', s') → s.tab <+: s'.tab)
-    (motive_4 := fun s b => ∀ b' s', freezeBody look s b = .ok (b', s') → s.tab <+: s'.tab)
-    (motive_5 := fun s its => ∀ its' s', freezeIts look s its = .ok (its', s') → s.tab <+: s'.tab)
-    (motive_6 := fun s es => ∀ es' s', freezeList look s es = .ok (es', s') → s.tab <+: s'.tab)
+    (motive_2 := fun s arms => ∀ arms' s', freezeArms look s arms = .ok (arms', s') → s.tab <+: s'.tab)
+    (motive_3 := fun s ps => ∀ ps' s', freezeParams look s ps = .ok (ps', s') → s.tab <+: s'.tab)
+    (motive_4 := fun s o => ∀ o' s', freezeOpt look s o = .ok (o', s') → s.tab <+: s'.tab)
+    (motive_5 := fun s b => ∀ b' s', freezeBody look s b = .ok (b', s') → s.tab <+: s'.tab)
+    (motive_6 := fun s its => ∀ its' s', freezeIts look s its = .ok (its', s') → s.tab <+: s'.tab)
+    (motive_7 := fun s es => ∀ es' s', freezeList look s es = .ok (es', s') → s.tab <+: s'.tab)
   all_goals
     intros
     rename_i h
-    simp only [freezeExpr, freezeList, freezeOpt, freezeIts, freezeParams, freezeBody, *] at h
+    simp only [freezeExpr, freezeArms, freezeList, freezeOpt, freezeIts, freezeParams, freezeBody, *] at h
     grind [List.IsPrefix.trans, List.prefix_append, List.prefix_refl]
 
 /-- the table only grows, by appending: every `Expr.frozen i` produced earlier stays valid -/
@@ -80,7 +84,7 @@ theorem freeze_tab_extends (look : String → Option V) (s s' : FState V) (e e' 
 
 theorem freezeList_tab_extends (look : String → Option V) (s s' : FState V) (es es' : List Expr)
     (h : freezeList look s es = .ok (es', s')) : ∃ extra, s'.tab = s.tab ++ extra := by
-  obtain ⟨extra, hx⟩ := (tab_prefix_all look).2.2.2.2.2 s es es' s' h
+  obtain ⟨extra, hx⟩ := (tab_prefix_all look).2.2.2.2.2.2 s es es' s' h
   exact ⟨extra, hx.symm⟩
 
 /-- an index that was valid in the table before the freeze denotes the same value afterwards -/
@@ -115,51 +119,54 @@ theorem freezeParams_names (look : String → Option V) (ps : List Param) :
         simp only [List.map_cons, Param.name, ih _ _ _ heq]
 
 theorem closed_all (look : String → Option V) (look' : String → Option V') :
-    (∀ s e, ∀ e' s', freezeExpr look s e = .ok (e', s') →
+    (∀ s e, ∀ e' s', freezeExpr look s e = .ok (e', s') → 
       ∀ t, freezeExpr look' ⟨s.bound, t⟩ e' = .ok (e', ⟨s'.bound, t⟩)) ∧
-    (∀ s ps, ∀ ps' s', freezeParams look s ps = .ok (ps', s') →
+    (∀ s arms, ∀ arms' s', freezeArms look s arms = .ok (arms', s') → 
+      ∀ t, freezeArms look' ⟨s.bound, t⟩ arms' = .ok (arms', ⟨s'.bound, t⟩)) ∧
+    (∀ s ps, ∀ ps' s', freezeParams look s ps = .ok (ps', s') → 
       ∀ t, freezeParams look' ⟨s.bound, t⟩ ps' = .ok (ps', ⟨s'.bound, t⟩)) ∧
-    (∀ s o, ∀ o' s', freezeOpt look s o = .ok (o', s') →
+    (∀ s o, ∀ o' s', freezeOpt look s o = .ok (o', s') → 
       ∀ t, freezeOpt look' ⟨s.bound, t⟩ o' = .ok (o', ⟨s'.bound, t⟩)) ∧
-    (∀ s b, ∀ b' s', freezeBody look s b = .ok (b', s') →
+    (∀ s b, ∀ b' s', freezeBody look s b = .ok (b', s') → 
       ∀ t, freezeBody look' ⟨s.bound, t⟩ b' = .ok (b', ⟨s'.bound, t⟩)) ∧
-    (∀ s its, ∀ its' s', freezeIts look s its = .ok (its', s') →
+    (∀ s its, ∀ its' s', freezeIts look s its = .ok (its', s') → 
       ∀ t, freezeIts look' ⟨s.bound, t⟩ its' = .ok (its', ⟨s'.bound, t⟩)) ∧
-    (∀ s es, ∀ es' s', freezeList look s es = .ok (es', s') →
+    (∀ s es, ∀ es' s', freezeList look s es = .ok (es', s') → 
       ∀ t, freezeList look' ⟨s.bound, t⟩ es' = .ok (es', ⟨s'.bound, t⟩)) := by
   apply freezeExpr.mutual_induct look
-    (motive_1 := fun s e => ∀ e' s', freezeExpr look s e = .ok (e', s') →
+    (motive_1 := fun s e => ∀ e' s', freezeExpr look s e = .ok (e', s') → 
       ∀ t, freezeExpr look' ⟨s.bound, t⟩ e' = .ok (e', ⟨s'.bound, t⟩))
-    (motive_2 := fun s ps => ∀ ps' s', freezeParams look s ps = .ok (ps', s') →
+    (motive_2 := fun s arms => ∀ arms' s', freezeArms look s arms = .ok (arms', s') → 
+      ∀ t, freezeArms look' ⟨s.bound, t⟩ arms' = .ok (arms', ⟨s'.bound, t⟩))
+    (motive_3 := fun s ps => ∀ ps' s', freezeParams look s ps = .ok (ps', s') → 
       ∀ t, freezeParams look' ⟨s.bound, t⟩ ps' = .ok (ps', ⟨s'.bound, t⟩))
-    (motive_3 := fun s o => ∀ o' s', freezeOpt look s o = .ok (o', s') →
+    (motive_4 := fun s o => ∀ o' s', freezeOpt look s o = .ok (o', s') → 
       ∀ t, freezeOpt look' ⟨s.bound, t⟩ o' = .ok (o', ⟨s'.bound, t⟩))
-    (motive_4 := fun s b => ∀ b' s', freezeBody look s b = .ok (b', s') →
+    (motive_5 := fun s b => ∀ b' s', freezeBody look s b = .ok (b', s') → 
       ∀ t, freezeBody look' ⟨s.bound, t⟩ b' = .ok (b', ⟨s'.bound, t⟩))
-    (motive_5 := fun s its => ∀ its' s', freezeIts look s its = .ok (its', s') →
+    (motive_6 := fun s its => ∀ its' s', freezeIts look s its = .ok (its', s') → 
       ∀ t, freezeIts look' ⟨s.bound, t⟩ its' = .ok (its', ⟨s'.bound, t⟩))
-    (motive_6 := fun s es => ∀ es' s', freezeList look s es = .ok (es', s') →
+    (motive_7 := fun s es => ∀ es' s', freezeList look s es = .ok (es', s') → 
       ∀ t, freezeList look' ⟨s.bound, t⟩ es' = .ok (es', ⟨s'.bound, t⟩))
   all_goals
     intros
     rename_i h t
     try dsimp +zetaDelta only at *
-    simp only [freezeExpr, freezeList, freezeOpt, freezeIts, freezeParams, freezeBody, ↓reduceIte,
+    simp only [freezeExpr, freezeArms, freezeList, freezeOpt, freezeIts, freezeParams, freezeBody, ↓reduceIte,
       Bool.false_eq_true, *] at h
     first
       | (simp only [reduceCtorEq] at h; done)
       | (simp only [Except.ok.injEq, Prod.mk.injEq] at h
          obtain ⟨rfl, rfl⟩ := h
-         simp only [freezeExpr, freezeList, freezeOpt, freezeIts, freezeParams, freezeBody]
+         simp only [freezeExpr, freezeArms, freezeList, freezeOpt, freezeIts, freezeParams, freezeBody]
          first | done | (simp_all; done))
-      | skip
-  -- what is left is the successful `lambda` case: the re-freeze binds the names of the REWRITTEN
-  -- parameter list, which are the names of the original one
-  case case50 s ps body _ ps' s2 hps b' s3 hb ihp ihb e' s' =>
-    have hn := freezeParams_names look _ _ _ _ hps
-    simp only [Except.ok.injEq, Prod.mk.injEq] at h
-    obtain ⟨rfl, rfl⟩ := h
-    simp only [freezeExpr, hn, ihp _ _ hps, ihb _ _ hb]
+      -- the successful `lambda` case: the re-freeze binds the names of the REWRITTEN parameter list,
+      -- which are the names of the original one (the hypothesis is found by its shape, not its position)
+      | (simp only [Except.ok.injEq, Prod.mk.injEq] at h
+         obtain ⟨rfl, rfl⟩ := h
+         have hn := freezeParams_names look _ _ _ _ ‹freezeParams look _ _ = Except.ok _›
+         simp only [freezeExpr, hn]
+         simp_all; done)
 
 /-- **frozen code is closed.**  If `freeze` succeeded, freezing its output again — with the same bound
 set but ANY lookup function (even one that knows no name at all) and any table — succeeds, returns the
@@ -186,27 +193,27 @@ theorem freeze_idempotent (look : String → Option V) (s s' : FState V) (e e' :
 theorem freezeList_closed (look : String → Option V) (look' : String → Option V') (s s' : FState V)
     (es es' : List Expr) (h : freezeList look s es = .ok (es', s')) (t : List V') :
     freezeList look' { bound := s.bound, tab := t } es' = .ok (es', { bound := s'.bound, tab := t }) :=
-  (closed_all look look').2.2.2.2.2 s es es' s' h t
+  (closed_all look look').2.2.2.2.2.2 s es es' s' h t
 
 theorem freezeBody_closed (look : String → Option V) (look' : String → Option V') (s s' : FState V)
     (b b' : ForBody) (h : freezeBody look s b = .ok (b', s')) (t : List V') :
     freezeBody look' { bound := s.bound, tab := t } b' = .ok (b', { bound := s'.bound, tab := t }) :=
-  (closed_all look look').2.2.2.1 s b b' s' h t
+  (closed_all look look').2.2.2.2.1 s b b' s' h t
 
 theorem freezeParams_closed (look : String → Option V) (look' : String → Option V') (s s' : FState V)
     (ps ps' : List Param) (h : freezeParams look s ps = .ok (ps', s')) (t : List V') :
     freezeParams look' { bound := s.bound, tab := t } ps' = .ok (ps', { bound := s'.bound, tab := t }) :=
-  (closed_all look look').2.1 s ps ps' s' h t
+  (closed_all look look').2.2.1 s ps ps' s' h t
 
 theorem freezeOpt_closed (look : String → Option V) (look' : String → Option V') (s s' : FState V)
     (o o' : Option Expr) (h : freezeOpt look s o = .ok (o', s')) (t : List V') :
     freezeOpt look' { bound := s.bound, tab := t } o' = .ok (o', { bound := s'.bound, tab := t }) :=
-  (closed_all look look').2.2.1 s o o' s' h t
+  (closed_all look look').2.2.2.1 s o o' s' h t
 
 theorem freezeIts_closed (look : String → Option V) (look' : String → Option V') (s s' : FState V)
     (its its' : List ForIt) (h : freezeIts look s its = .ok (its', s')) (t : List V') :
     freezeIts look' { bound := s.bound, tab := t } its' = .ok (its', { bound := s'.bound, tab := t }) :=
-  (closed_all look look').2.2.2.2.1 s its its' s' h t
+  (closed_all look look').2.2.2.2.2.1 s its its' s' h t
 
 /-! ## c. when does a freeze fail?  An independent syntactic characterisation
 
@@ -243,6 +250,7 @@ mutual
     | bd, .ret e => afterOpt bd e
     | bd, .throw_ e => afterExpr bd e
     | bd, .try_ b _ _ => afterExpr bd b
+    | bd, .switch_ sc _ => afterExpr bd sc          -- nothing an arm binds survives the `switch`
     | bd, .freeze e => afterExpr bd e
   def afterList : List String → List Expr → List String
     | bd, [] => bd
@@ -295,7 +303,12 @@ mutual
     | bd, .ret e => stuckOpt look bd e
     | bd, .throw_ e => stuckExpr look bd e
     | bd, .try_ b p c => stuckExpr look bd b || stuckExpr look (afterExpr bd b ++ Pat.idents p) c
+    | bd, .switch_ sc arms => stuckExpr look bd sc || stuckArms look (afterExpr bd sc) arms
     | bd, .freeze e => stuckExpr look bd e
+  /-- every arm is walked from the SAME bound set, extended by its own pattern only -/
+  def stuckArms (look : String → Option V) : List String → List SwitchArm → Bool
+    | _, [] => false
+    | bd, .mk p body :: rest => stuckExpr look (bd ++ Pat.idents p) body || stuckArms look bd rest
   def stuckList (look : String → Option V) : List String → List Expr → Bool
     | _, [] => false
     | bd, x :: xs => stuckExpr look bd x || stuckList look (afterExpr bd x) xs
@@ -320,6 +333,8 @@ end
 theorem fails_iff_all (look : String → Option V) :
     (∀ s e, (∀ e' s', freezeExpr look s e = .ok (e', s') → s'.bound = afterExpr s.bound e) ∧
       ((∃ err, freezeExpr look s e = .error err) ↔ stuckExpr look s.bound e = true)) ∧
+    (∀ s arms, (∀ e' s', freezeArms look s arms = .ok (e', s') → s'.bound = s.bound) ∧
+      ((∃ err, freezeArms look s arms = .error err) ↔ stuckArms look s.bound arms = true)) ∧
     (∀ s ps, (∀ e' s', freezeParams look s ps = .ok (e', s') → s'.bound = afterParams s.bound ps) ∧
       ((∃ err, freezeParams look s ps = .error err) ↔ stuckParams look s.bound ps = true)) ∧
     (∀ s o, (∀ e' s', freezeOpt look s o = .ok (e', s') → s'.bound = afterOpt s.bound o) ∧
@@ -333,22 +348,24 @@ theorem fails_iff_all (look : String → Option V) :
   apply freezeExpr.mutual_induct look
     (motive_1 := fun s e => (∀ e' s', freezeExpr look s e = .ok (e', s') → s'.bound = afterExpr s.bound e) ∧
       ((∃ err, freezeExpr look s e = .error err) ↔ stuckExpr look s.bound e = true))
-    (motive_2 := fun s ps => (∀ e' s', freezeParams look s ps = .ok (e', s') → s'.bound = afterParams s.bound ps) ∧
+    (motive_2 := fun s arms => (∀ e' s', freezeArms look s arms = .ok (e', s') → s'.bound = s.bound) ∧
+      ((∃ err, freezeArms look s arms = .error err) ↔ stuckArms look s.bound arms = true))
+    (motive_3 := fun s ps => (∀ e' s', freezeParams look s ps = .ok (e', s') → s'.bound = afterParams s.bound ps) ∧
       ((∃ err, freezeParams look s ps = .error err) ↔ stuckParams look s.bound ps = true))
-    (motive_3 := fun s o => (∀ e' s', freezeOpt look s o = .ok (e', s') → s'.bound = afterOpt s.bound o) ∧
+    (motive_4 := fun s o => (∀ e' s', freezeOpt look s o = .ok (e', s') → s'.bound = afterOpt s.bound o) ∧
       ((∃ err, freezeOpt look s o = .error err) ↔ stuckOpt look s.bound o = true))
-    (motive_4 := fun s b => (∀ e' s', freezeBody look s b = .ok (e', s') → s'.bound = afterBody s.bound b) ∧
+    (motive_5 := fun s b => (∀ e' s', freezeBody look s b = .ok (e', s') → s'.bound = afterBody s.bound b) ∧
       ((∃ err, freezeBody look s b = .error err) ↔ stuckBody look s.bound b = true))
-    (motive_5 := fun s its => (∀ e' s', freezeIts look s its = .ok (e', s') → s'.bound = afterIts s.bound its) ∧
+    (motive_6 := fun s its => (∀ e' s', freezeIts look s its = .ok (e', s') → s'.bound = afterIts s.bound its) ∧
       ((∃ err, freezeIts look s its = .error err) ↔ stuckIts look s.bound its = true))
-    (motive_6 := fun s es => (∀ e' s', freezeList look s es = .ok (e', s') → s'.bound = afterList s.bound es) ∧
+    (motive_7 := fun s es => (∀ e' s', freezeList look s es = .ok (e', s') → s'.bound = afterList s.bound es) ∧
       ((∃ err, freezeList look s es = .error err) ↔ stuckList look s.bound es = true))
   all_goals
     intros
     try dsimp +zetaDelta only at *
-    simp only [freezeExpr, freezeList, freezeOpt, freezeIts, freezeParams, freezeBody,
+    simp only [freezeExpr, freezeArms, freezeList, freezeOpt, freezeIts, freezeParams, freezeBody,
       afterExpr, afterList, afterOpt, afterIts, afterParams, afterBody,
-      stuckExpr, stuckList, stuckOpt, stuckIts, stuckParams, stuckBody]
+      stuckExpr, stuckArms, stuckList, stuckOpt, stuckIts, stuckParams, stuckBody]
     simp_all
 
 /-- `Stuck look bound e`: walking `e` in freeze's order, with freeze's binding discipline, meets a free
@@ -376,10 +393,80 @@ theorem freeze_bound_eq_after (look : String → Option V) (s s' : FState V) (e 
     (h : freezeExpr look s e = .ok (e', s')) : s'.bound = afterExpr s.bound e :=
   ((fails_iff_all look).1 s e).1 e' s' h
 
+/-! ### `switch`: arms are frozen independently of each other, and nothing leaks out -/
+
+/-- pointwise relation of two lists (core Lean has no `List.Forall₂`) -/
+inductive Forall₂ {α β : Type} (R : α → β → Prop) : List α → List β → Prop where
+  | nil : Forall₂ R [] []
+  | cons {a b as bs} : R a b → Forall₂ R as bs → Forall₂ R (a :: as) (b :: bs)
+
+def armPat : SwitchArm → Pat
+  | .mk p _ => p
+def armBody : SwitchArm → Expr
+  | .mk _ b => b
+
+/-- **the arms of a `switch` are frozen independently.**  Freezing the arm list leaves the bound set as
+it was, and arm `k` (pattern `p`) is frozen under exactly `s.bound ++ Pat.idents p` — a bound set in
+which neither the patterns nor the bodies of the other arms occur (only the table is threaded from arm
+to arm). -/
+theorem freeze_switch_arms_independent (look : String → Option V) (arms : List SwitchArm) :
+    ∀ (s : FState V) (arms' : List SwitchArm) (s' : FState V), freezeArms look s arms = .ok (arms', s') →
+      s'.bound = s.bound ∧
+      Forall₂ (fun a a' => armPat a' = armPat a ∧
+        ∃ t s2, freezeExpr look { bound := s.bound ++ Pat.idents (armPat a), tab := t } (armBody a)
+          = .ok (armBody a', s2)) arms arms' := by
+  induction arms with
+  | nil =>
+    intro s arms' s' h
+    simp only [freezeArms, Except.ok.injEq, Prod.mk.injEq] at h
+    obtain ⟨rfl, rfl⟩ := h
+    exact ⟨rfl, .nil⟩
+  | cons a rest ih =>
+    intro s arms' s' h
+    obtain ⟨p, body⟩ := a
+    simp only [freezeArms] at h
+    split at h
+    · exact absurd h (by simp)
+    · rename_i body' s2 hbody
+      split at h
+      · exact absurd h (by simp)
+      · rename_i rest' s3 hrest
+        simp only [Except.ok.injEq, Prod.mk.injEq] at h
+        obtain ⟨rfl, rfl⟩ := h
+        obtain ⟨hb, hall⟩ := ih _ _ _ hrest
+        exact ⟨hb, .cons ⟨rfl, s.tab, s2, hbody⟩ hall⟩
+
+/-- the bound-set half on its own -/
+theorem freezeArms_bound (look : String → Option V) (s s' : FState V) (arms arms' : List SwitchArm)
+    (h : freezeArms look s arms = .ok (arms', s')) : s'.bound = s.bound :=
+  (freeze_switch_arms_independent look arms s arms' s' h).1
+
+/-- **`switch` does not leak**: the bound set after a `switch` is the bound set after its scrutinee —
+whatever the arms' patterns bind, and whatever their bodies declare, is gone -/
+theorem freeze_switch_does_not_leak (look : String → Option V) (s s' : FState V) (sc : Expr)
+    (arms : List SwitchArm) (e' : Expr) (h : freezeExpr look s (.switch_ sc arms) = .ok (e', s')) :
+    ∃ sc' s1, freezeExpr look s sc = .ok (sc', s1) ∧ s'.bound = s1.bound := by
+  simp only [freezeExpr] at h
+  split at h
+  · exact absurd h (by simp)
+  · rename_i sc' s1 hsc
+    split at h
+    · exact absurd h (by simp)
+    · simp only [Except.ok.injEq, Prod.mk.injEq] at h
+      exact ⟨sc', s1, hsc, by rw [← h.2]⟩
+
+/-- the same in terms of the syntactic `afterExpr` -/
+theorem freeze_switch_bound_eq_after_scrutinee (look : String → Option V) (s s' : FState V) (sc : Expr)
+    (arms : List SwitchArm) (e' : Expr) (h : freezeExpr look s (.switch_ sc arms) = .ok (e', s')) :
+    s'.bound = afterExpr s.bound sc := by
+  obtain ⟨sc', s1, hsc, hb⟩ := freeze_switch_does_not_leak look s s' sc arms e' h
+  rw [hb, freeze_bound_eq_after look s s1 sc sc' hsc]
+
 /-- the walk depends on `look` only through WHICH names it knows -/
 theorem stuck_congr_all (look : String → Option V) (look' : String → Option V')
     (hl : ∀ x, (look x).isNone = (look' x).isNone) :
     (∀ bd e, stuckExpr look bd e = stuckExpr look' bd e) ∧
+    (∀ bd arms, stuckArms look bd arms = stuckArms look' bd arms) ∧
     (∀ bd ps, stuckParams look bd ps = stuckParams look' bd ps) ∧
     (∀ bd o, stuckOpt look bd o = stuckOpt look' bd o) ∧
     (∀ bd b, stuckBody look bd b = stuckBody look' bd b) ∧
@@ -387,14 +474,15 @@ theorem stuck_congr_all (look : String → Option V) (look' : String → Option 
     (∀ bd es, stuckList look bd es = stuckList look' bd es) := by
   apply stuckExpr.mutual_induct
     (motive_1 := fun bd e => stuckExpr look bd e = stuckExpr look' bd e)
-    (motive_2 := fun bd ps => stuckParams look bd ps = stuckParams look' bd ps)
-    (motive_3 := fun bd o => stuckOpt look bd o = stuckOpt look' bd o)
-    (motive_4 := fun bd b => stuckBody look bd b = stuckBody look' bd b)
-    (motive_5 := fun bd its => stuckIts look bd its = stuckIts look' bd its)
-    (motive_6 := fun bd es => stuckList look bd es = stuckList look' bd es)
+    (motive_2 := fun bd arms => stuckArms look bd arms = stuckArms look' bd arms)
+    (motive_3 := fun bd ps => stuckParams look bd ps = stuckParams look' bd ps)
+    (motive_4 := fun bd o => stuckOpt look bd o = stuckOpt look' bd o)
+    (motive_5 := fun bd b => stuckBody look bd b = stuckBody look' bd b)
+    (motive_6 := fun bd its => stuckIts look bd its = stuckIts look' bd its)
+    (motive_7 := fun bd es => stuckList look bd es = stuckList look' bd es)
   all_goals
     intros
-    simp only [stuckExpr, stuckList, stuckOpt, stuckIts, stuckParams, stuckBody, *]
+    simp only [stuckExpr, stuckArms, stuckList, stuckOpt, stuckIts, stuckParams, stuckBody, *]
 
 /-- whether a freeze fails does not depend on the table, and depends on `look` only through which names
 it knows -/
@@ -443,6 +531,21 @@ example : Stuck lookO [] (.seq [.while_ (.int 0) (.declare (.ident "q") (.int 1)
 /-- …and a `for` clause resolves its iteratee before binding its own names -/
 example : Stuck lookO [] (.for_ [.iter .normal (.ident "x") (.ident "x")] (.exec .null)) := by decide
 example : ¬ Stuck lookO [] (.for_ [.iter .normal (.ident "x") (.ident "o")] (.exec (.ident "x"))) := by decide
+
+/-- `switch`: a name bound by one arm's pattern is not visible in the next arm, nor after the `switch`;
+inside its own arm it is -/
+example : ¬ Stuck lookO [] (.switch_ (.ident "o") [.mk (.ident "y") (.ident "y"), .mk .underscore (.int 0)]) := by
+  decide
+example : Stuck lookO [] (.switch_ (.ident "o") [.mk (.ident "y") (.int 0), .mk .underscore (.ident "y")]) := by
+  decide
+example : Stuck lookO [] (.seq [.switch_ (.ident "o") [.mk (.ident "y") (.int 0)], .ident "y"] false) := by
+  decide
+/-- non-vacuity of the `switch` theorems: a two-armed `switch` freezes, `o` is resolved in both places -/
+example : freezeExpr lookO ⟨[], []⟩
+      (.switch_ (.ident "o") [.mk (.ident "y") (.op "+" (.ident "y") (.ident "o")), .mk .underscore (.int 0)]) =
+    .ok (.switch_ (.frozen 0) [.mk (.ident "y") (.op "+" (.ident "y") (.frozen 1)), .mk .underscore (.int 0)],
+      ⟨[], [5, 5]⟩) := by
+  simp [freezeExpr, freezeArms, lookO, Pat.idents]
 
 end Examples
 
@@ -781,7 +884,7 @@ theorem pres_all (st : State) (env : Nat) :
         cases fuel with
         | zero => exact ⟨.stop .fuelOut, by simp only [evalList], by simp only [evalList]⟩
         | succ f =>
-          obtain ⟨rx, hx1, hx2⟩ := px f T ((hpre.2.2.2.2.2 _ _ _ _ hxs).trans hT)
+          obtain ⟨rx, hx1, hx2⟩ := px f T ((hpre.2.2.2.2.2.2 _ _ _ _ hxs).trans hT)
           obtain ⟨rxs, hxs1, hxs2⟩ := pxs f T hT
           simp only [evalList, hx1, hx2]
           cases rx <;> try exact ⟨_, rfl, rfl⟩
